@@ -137,7 +137,9 @@ def run_tests(repo, req):
     xml = os.path.join(repo.root, "plz-out", "log", "test_results.xml")
     if os.path.exists(xml):
         os.remove(xml)
-    rc, outp, _, lines = repo.plz(["test"] + ["//%s:t%d" % (PKG, t) for t in req])
+    rc, outp, _, lines = repo.plz(["test"] + ["//%s:t%d" % (PKG, t) for t in req], timeout=300)
+    if rc == -9:
+        raise vlib.Infra("plz test timed out (machine overloaded?):\n%s" % outp[-1000:])
     ran = [int(l.split(":t")[1]) for l in lines if l.startswith("T ")]
     outcome, cached = {}, {}
     if os.path.exists(xml):
@@ -324,6 +326,12 @@ def stratified(items, keyfn, n, rng):
     return out
 
 
+def sample_size(default):
+    """Development knob: VERIF_TESTCHG_SAMPLE=<n> caps the number of histories / cases replayed end to end."""
+    v = os.environ.get("VERIF_TESTCHG_SAMPLE")
+    return min(int(v), default) if v else default
+
+
 def uniq_sorted(behs):
     seen, out = set(), []
     for b in sorted(behs, key=lambda b: json.dumps(b, sort_keys=True)):
@@ -380,15 +388,15 @@ def run_c11(ctx):
             r = vlib.tlc(ctx, "TestReuse", "GEN_TestReuse_2s%d.cfg" % (ctx.seed % 3 + 1), workers=8, timeout=600)
             behs = uniq_sorted(r.behaviours)
             total = len(behs)
-            behs = stratified([b for b in behs if c11_nontrivial(b)], kinds_of, 120, random.Random(ctx.seed))
+            behs = stratified([b for b in behs if c11_nontrivial(b)], kinds_of, sample_size(120), random.Random(ctx.seed))
         else:
             r2 = vlib.tlc(ctx, "TestReuse", "GEN_TestReuse_2.cfg", workers=8, timeout=1500)
             r3 = vlib.tlc(ctx, "TestReuse", "GEN_TestReuse_3.cfg", workers=8, timeout=3000)
             b2, b3 = uniq_sorted(r2.behaviours), uniq_sorted(r3.behaviours)
             total = len(b2) + len(b3)
             rng = random.Random(ctx.seed)
-            behs = stratified([b for b in b2 if c11_nontrivial(b)], kinds_of, 1800, rng) \
-                + stratified([b for b in b3 if c11_nontrivial(b)], kinds_of, 1800, rng)
+            behs = stratified([b for b in b2 if c11_nontrivial(b)], kinds_of, sample_size(1800), rng) \
+                + stratified([b for b in b3 if c11_nontrivial(b)], kinds_of, sample_size(1800), rng)
     ctx.extra["histories_enumerated_by_tlc"] = total
     with ThreadPoolExecutor(max_workers=12) as ex:
         futs = [ex.submit(c11_replay, ctx, i, b, {}) for i, b in enumerate(behs)]
@@ -456,7 +464,8 @@ def c24_tree(defs, changed, cfg, log):
 
 
 def c24_config(cfg):
-    return "[buildconfig]\nverif-marker = 1\n" if cfg else ""
+    # a build-environment variable is part of the configuration hash (Configuration.Hash) and of every action's environment
+    return "[buildenv]\nverif-marker = 1\n" if cfg else ""
 
 
 def c24_outputs(repo, t, d):
@@ -478,7 +487,7 @@ def git(repo, *args):
 
 
 def query_changes(repo, args):
-    rc, outp, _, _ = repo.plz(["query", "changes"] + args)
+    rc, outp, _, _ = repo.plz(["query", "changes"] + args, timeout=300)
     if rc != 0:
         raise vlib.Infra("plz query changes %s failed (rc=%d) on a generated repository (harness/spec error?):\n%s" % (args, rc, outp[-2000:]))
     got = set()
@@ -496,16 +505,67 @@ def write_config(repo, cfg):
         f.write(base + c24_config(cfg))
 
 
+def c24_why(case):
+    w = case["why"]
+    if isinstance(w, list):   # TLC prints a function with domain 1..n as an array
+        return {i + 1: x for i, x in enumerate(w)}
+    return {int(k): x for k, x in w.items()}
+
+
+def c24_judge(case, mode, rep, really, trace, binding):
+    """The property: Affected within Reported(level -1), Direct within Reported(level 0). Returns (drift, violations)."""
+    affected, direct, why = set(case["affected"]), set(case["direct"]), c24_why(case)
+    algo = case["algo"][mode]
+    drift = 1 if rep[-1] != set(algo["all"]) or rep[0] != set(algo["zero"]) else 0
+    viols = []
+    for level, want in ((-1, affected), (0, direct)):
+        for t in sorted(want - rep[level]):
+            if level == -1 and t in direct and t not in rep[0]:
+                continue    # already reported at level 0
+            viols.append(("C24 not-reported why=%s mode=%s" % (why.get(t, "?"), mode),
+                          dict(case=case, target=t, level=level, mode=mode, binding=binding, reported=sorted(rep[level]), expected=sorted(want),
+                               really_rebuilt_or_changed=(t in really) if really is not None else None, trace=list(trace))))
+    return drift, viols
+
+
+def c24_inprocess(ctx, cases):
+    """query.Changes / query.DiffGraphs on graphs parsed in-process by the real interpreter (harness/changes.go)."""
+    hc, idx = [], {}
+    for i, c in enumerate(cases):
+        if c["cfg"]:
+            continue    # a configuration change needs the real config loader: e2e only
+        bt = c24_tree(c["before"], set(), False, "/dev/null")
+        at = c24_tree(c["after"], set(c["files"]), False, "/dev/null")
+        builds = lambda tree: {os.path.dirname(k): v for k, v in tree.items() if os.path.basename(k) == "BUILD"}
+        files = [C24_FILE[f] for f in sorted(c["files"])] + sorted(k for k in at if os.path.basename(k) == "BUILD" and at[k] != bt[k])
+        hc.append(dict(id=i, before=builds(bt), after=builds(at), files=files, modes=sorted(c["modes"]), levels=[-1, 0]))
+        idx[i] = c
+    obs = vlib.run_vh(ctx, "changes", hc)
+    drift, viols, n = 0, [], 0
+    for i, c in idx.items():
+        o = obs.get(i)
+        if o is None or o.get("error"):
+            raise vlib.Infra("in-process parse/query of a generated case failed (harness/spec error): %s" % (o and o.get("error")))
+        for mode in sorted(c["modes"]):
+            rep = {}
+            for level in (-1, 0):
+                labels = o["reported"][mode][str(level)]
+                rep[level] = {t for t in C24_PKG if c24_label(t) in labels}
+            trace = ["in-process %s: level -1 -> %s, level 0 -> %s" % (mode, sorted(rep[-1]), sorted(rep[0]))]
+            d, v = c24_judge(c, mode, rep, None, trace, "in-process")
+            drift += d
+            viols += v
+            n += 2
+    return drift, viols, n
+
+
 def c24_replay(ctx, idx, case, opts):
     base = os.path.join(ctx.scratch, "c%d" % idx)
     os.makedirs(base, exist_ok=True)
     log = os.path.join(base, "log")
     repo = TRepo(os.path.join(base, "repo"), log)
     before, after, changed = case["before"], case["after"], set(case["files"])
-    affected, direct = set(case["affected"]), set(case["direct"])
-    why = e2e.by_target(case["why"]) if not isinstance(case["why"], list) or case["why"] else {}
-    if isinstance(case["why"], list):   # TLC prints a function with domain 1..n as an array
-        why = {i + 1: w for i, w in enumerate(case["why"])}
+    affected = set(case["affected"])
     present_b = [i + 1 for i, d in enumerate(before) if d["present"]]
     present_a = [i + 1 for i, d in enumerate(after) if d["present"]]
     trace, viols, queries, drift = [], [], 0, 0
@@ -543,6 +603,8 @@ def c24_replay(ctx, idx, case, opts):
         really = {t for t in present_a if c24_label(t) in started}
         really |= {t for t in present_a if t in snap_b and c24_outputs(repo, t, after[t - 1]) != snap_b[t]}
         trace.append("incremental build: really rebuilt or changed = %s" % sorted(really))
+        if case["cfg"] and not {t for t in present_a if after[t - 1]["kind"] == "gen"} <= really:
+            raise vlib.Infra("the rendered configuration change did not re-execute every genrule (harness error): %s" % sorted(really))
         if not really <= affected:
             raise vlib.Infra("the spec's Affected %s misses target(s) that really re-executed or changed %s (spec/harness error)\n%s"
                              % (sorted(affected), sorted(really), edit))
@@ -559,16 +621,9 @@ def c24_replay(ctx, idx, case, opts):
                 raise vlib.Infra("working tree not clean after plz query changes --since:\n%s" % st)
         queries += 2
         trace.append("%s: level -1 -> %s, level 0 -> %s" % (mode, sorted(rep[-1]), sorted(rep[0])))
-        algo = case["algo"][mode]
-        if rep[-1] != set(algo["all"]) or rep[0] != set(algo["zero"]):
-            drift += 1
-        for level, want in ((-1, affected), (0, direct)):
-            for t in sorted(want - rep[level]):
-                if level == -1 and t in direct and t not in rep[0]:
-                    continue    # already reported at level 0
-                viols.append(("C24 not-reported why=%s mode=%s" % (why.get(t, "?"), mode),
-                              dict(case=case, target=t, level=level, mode=mode, reported=sorted(rep[level]), expected=sorted(want),
-                                   really_rebuilt_or_changed=(t in really) if really is not None else None, trace=list(trace))))
+        d, v = c24_judge(case, mode, rep, really, trace, "e2e")
+        drift += d
+        viols += v
     shutil.rmtree(base, ignore_errors=True)
     return viols, dict(queries=queries, drift=drift, trace=trace)
 
@@ -581,7 +636,7 @@ def c24_class(case):
     why = case["why"]
     vals = why if isinstance(why, list) else list(why.values())
     edits = sorted({w for w in vals if w not in ("dependent",)})
-    return (json.dumps(case["before"], sort_keys=True)[:0] + str(len(case["files"])), tuple(edits), tuple(sorted(case["modes"])))
+    return (len(case["files"]), tuple(edits), tuple(sorted(case["modes"])))
 
 
 CLAIM24 = dict(
@@ -594,7 +649,7 @@ CLAIM24 = dict(
          "with a real git history and `plz query changes` is run with a file list and with --since at level -1 and 0; a target of Affected "
          "(level -1) or Direct (level 0) that is not printed is a violation; Affected itself is cross-checked against the targets a real "
          "incremental build re-executes or whose outputs change.",
-    note="Bounded: 5 target slots, 4 base repositories, <=2 changed files, one definition edit per case; levels -1 and 0 only; a dependent that "
+    note="Bounded: 5 target slots, 5 base repositories, <=2 changed files, one definition edit per case; levels -1 and 0 only; a dependent that "
          "`requires` what a provider provides is taken to depend on the provided target (weakest reading), so only effective edges propagate; "
          "file-list mode is asked only where no definition changed; manual-labelled targets, subrepos, deleted files and subincludes are not modelled; "
          "trusted: git, the generated commands' action log, TLC.",
@@ -604,7 +659,7 @@ CLAIM24 = dict(
 @register("C24", claim=CLAIM24)
 def run_c24(ctx):
     vlib.build_plz()
-    ctx.rule = ("every before/after case of Changes.tla (4 base repositories x {1-2 changed files, one-field definition edit [x one changed file in thorough], "
+    ctx.rule = ("every before/after case of Changes.tla (5 base repositories x {1-2 changed files, one-field definition edit [x one changed file in thorough], "
                 "new target, configuration change}) enumerated by TLC; quick: seeded sample stratified by (number of files, reasons, modes); "
                 "non-trivial = Affected has a target beyond Direct or a definition/config edit; distinct by (before, after, files, config)")
     ctx.assumptions += ["a dependent that requires what a declared dependency provides depends on the provided target, not on the provider (effective edges)",
@@ -615,10 +670,12 @@ def run_c24(ctx):
         cases = [d["case"] for d in ctx.replay_only]
         total = len(cases)
     else:
+        vlib.build_vh()
         vlib.tlc(ctx, "Changes", "MC_Changes.cfg", workers=8)
-        for cfg in ("MC_Changes_flaw_provides.cfg", "MC_Changes_flaw_noout.cfg"):
-            fl = vlib.tlc(ctx, "Changes", cfg, workers=4, allow_violation=True)
-            ctx.extra["model_counterexample_" + cfg[11:-4]] = fl.invariant
+        if not ctx.quick:
+            for cfg in ("MC_Changes_flaw_provides.cfg", "MC_Changes_flaw_noout.cfg"):
+                fl = vlib.tlc(ctx, "Changes", cfg, workers=4, allow_violation=True)
+                ctx.extra["model_counterexample_" + cfg[11:-4]] = fl.invariant
         r = vlib.tlc(ctx, "Changes", "GEN_Changes_q.cfg" if ctx.quick else "GEN_Changes_t.cfg", workers=8)
         seen, cases = set(), []
         for c in sorted(r.cases, key=c24_key):
@@ -626,20 +683,29 @@ def run_c24(ctx):
                 seen.add(c24_key(c))
                 cases.append(c)
         total = len(cases)
-        if ctx.quick:
-            cases = stratified(cases, c24_class, 110, random.Random(ctx.seed))
     ctx.extra["cases_enumerated_by_tlc"] = total
+    # binding (a): every case in-process
+    drift, viols, n = c24_inprocess(ctx, cases)
+    ctx.traces_validated += n
+    ctx.extra["in_process_queries"] = n
+    for sig, det in viols:
+        ctx.violation(sig, det)
+    for case in cases:
+        nt = len(case["affected"]) > len(case["direct"]) or case["before"] != case["after"] or case["cfg"]
+        ctx.count("in-process:" + c24_key(case), nontrivial=nt)
+    # binding (b): end to end, with a real git history; quick: a seeded stratified sample
+    if ctx.replay_only is None and (ctx.quick or sample_size(len(cases)) < len(cases)):
+        cases = stratified(cases, c24_class, sample_size(80 if ctx.quick else len(cases)), random.Random(ctx.seed))
     with ThreadPoolExecutor(max_workers=12) as ex:
         futs = [ex.submit(c24_replay, ctx, i, c, {}) for i, c in enumerate(cases)]
         results = [(cases[i], f.result()) for i, f in enumerate(futs)]
-    drift = 0
     for case, (viols, stt) in results:
         nt = len(case["affected"]) > len(case["direct"]) or case["before"] != case["after"] or case["cfg"]
-        ctx.count(c24_key(case), nontrivial=nt, sample=dict(trace=stt["trace"], affected=case["affected"], direct=case["direct"]) if nt else None)
+        ctx.count("e2e:" + c24_key(case), nontrivial=nt, sample=dict(trace=stt["trace"], affected=case["affected"], direct=case["direct"]) if nt else None)
         ctx.traces_validated += stt["queries"]
         drift += stt["drift"]
         for sig, det in viols:
             ctx.violation(sig, det)
     if drift:
         ctx.drift("%d query mode(s) printed a different set than the algorithm model predicted (judged by the property only)" % drift)
-    ctx.exhaustive = not ctx.quick and ctx.replay_only is None
+    ctx.exhaustive = not ctx.quick and ctx.replay_only is None   # every enumerated case in-process (and e2e unless capped)
